@@ -4,7 +4,7 @@
 # without hooks), lib tests with the change, demo with and without the change.
 id=$1; shift
 wt=/tmp/wt-$id; out=$wt/out; log=$out/confirm.log
-export CARGO_TARGET_DIR=$wt/target CARGO_NET_OFFLINE=true
+export CARGO_TARGET_DIR=${SEED_TARGET:-$wt/target} CARGO_NET_OFFLINE=true
 cd $wt || exit 2
 git checkout -q -- . ; git clean -fdq -e out -e target
 git apply $out/demo.diff || { echo "demo.diff does not apply" | tee $log; exit 2; }
